@@ -553,3 +553,30 @@ def np_log2(interp, x):
     if x <= 0:
         raise Unsupported("np.log2 of a non-positive value")
     return T.from_flat([], [_m.log2(x)], FLOAT, kind="numpy")
+
+
+@lib("numpy.percentile")
+def np_percentile(interp, a, q, axis=None, method="linear", interpolation=None):
+    """numpy docs (method='linear'): with the values sorted ascending, the q-th percentile is at
+    the virtual index q/100*(n-1), linearly interpolated between its two neighbours.  Decided
+    for 1-D finite arrays of concrete length (sorted by path forks)."""
+    a = _a(a)
+    if axis is not None or method != "linear" or interpolation not in (None, "linear"):
+        raise Unsupported("np.percentile options")
+    a = T.reshape(a, [-1])
+    n = a.shape[0]
+    if not isinstance(n, int):
+        raise Unsupported("np.percentile of a symbolic-length array")
+    if n == 0:
+        raise PyExc("IndexError", ("index -1 is out of bounds for axis 0 with size 0",))
+    if not isinstance(q, (int, float)):
+        raise Unsupported("np.percentile with a symbolic q")
+    order = np_argsort(interp, a, kind="stable")
+    rd, orr = a.reader(), order.reader()
+    srt = [rd([orr([i])]) for i in range(n)]
+    pos = q / 100.0 * (n - 1)
+    lo = int(pos // 1)
+    hi = min(lo + 1, n - 1)
+    frac = pos - lo
+    v = V.f_add(srt[lo], V.f_mul(V.f_sub(srt[hi], srt[lo]), frac)) if frac else srt[lo]
+    return v
